@@ -274,8 +274,9 @@ def State.promoteTx (s : State) (a : Nat) (t : Tx) : State × Bool :=
     let s := { s with clock := s.clock + 1 }
     (s.upd a (fun ac => { ac with beat := s.clock, pn := some (t.nonce + 1) }), true)
 
+/-- `txNoncer.setIfLower`: lowers the virtual nonce, but never below the state nonce of the last reset -/
 def Account.setIfLower (ac : Account) (n : Nat) : Account :=
-  if ac.pnGet ≤ n then { ac with pn := some ac.pnGet } else { ac with pn := some n }
+  if ac.pnGet ≤ n then { ac with pn := some ac.pnGet } else { ac with pn := some (max n ac.nonce) }
 
 /-- `removeTx(hash, outofbound)`; the hash is known only if the transaction is in `all`. -/
 def State.removeTx (s : State) (t : Tx) (oob : Bool) : State :=
@@ -379,6 +380,11 @@ def State.promoteAccount (s : State) (a : Nat) : State :=
 
 def State.promoteExecutables (s : State) (accounts : List Nat) : State := accounts.foldl State.promoteAccount s
 
+/-- length of the gap-free run of nonces starting at `n` (`for list.txs.Get(nonce+run) != nil { run++ }`) -/
+def contigRun : Nat → List Tx → Nat → Nat
+  | 0, _, _ => 0
+  | fuel + 1, l, n => if (getN l n).isSome then 1 + contigRun fuel l (n + 1) else 0
+
 def State.demoteAccount (s : State) (a : Nat) : State :=
   let ac := s.acct a
   if ac.pending.txs.isEmpty then s else
@@ -389,8 +395,8 @@ def State.demoteAccount (s : State) (a : Nat) : State :=
   let s := s.pricedRemoved (olds.length + drops.length)
   let s := s.upd a (fun ac => { ac with pending := p1 })
   let s := s.enqueueMany invalids
-  let (gapped, p2) :=
-    if !p1.txs.isEmpty && (getN p1.txs ac.nonce).isNone then p1.cap 0 else ([], p1)
+  let run := contigRun p1.txs.length p1.txs ac.nonce
+  let (gapped, p2) := if run < p1.txs.length then p1.cap run else ([], p1)
   let s := s.upd a (fun ac => { ac with pending := p2 })
   let s := s.enqueueMany gapped
   if p2.txs.isEmpty then s.upd a (fun ac => { ac with pending := {}, beat := 0 }) else s
